@@ -318,11 +318,11 @@ pub(crate) mod kani_verif {
             }
         };
     }
-    // @h name=c03_from_l1 props=C03,C07,C01,C05,C13,C10 tier=quick kind=proved cfg=w8 timeout=2400 funcs=HssPrivateKey::from contract="expanded key of counter c: level i tree = derive(level i-1 (seed,I), digit i-1), current leaf = digit i; child public key i signed by level i-1 leaf digit i-1 over its serialisation; used-leaf vector = digits (+1 above bottom); every counter, all heights; callees by contract; L=1"
+    // @h name=c03_from_l1 props=C03,C07,C01,C05,C13,C10 tier=quick kind=proved cfg=L2w8 timeout=2400 funcs=HssPrivateKey::from contract="expanded key of counter c: level i tree = derive(level i-1 (seed,I), digit i-1), current leaf = digit i; child public key i signed by level i-1 leaf digit i-1 over its serialisation; used-leaf vector = digits (+1 above bottom); every counter, all heights; callees by contract; L=1"
     from_harness!(c03_from_l1, 1);
-    // @h name=c03_from_l2 props=C03,C07!,C01!,C05,C13!,C10! tier=quick kind=proved cfg=w8 timeout=2400 funcs=HssPrivateKey::from contract="same, L=2"
+    // @h name=c03_from_l2 props=C03,C07!,C01!,C05,C13!,C10! tier=quick kind=proved cfg=L2w8 timeout=2400 funcs=HssPrivateKey::from contract="same, L=2"
     from_harness!(c03_from_l2, 2);
-    // @h name=c03_from_l3 props=C03,C07,C01,C05,C13,C10 tier=thorough kind=proved cfg=w8 timeout=3600 funcs=HssPrivateKey::from contract="same, L=3"
+    // @h name=c03_from_l3 props=C03,C07,C01,C05,C13,C10 tier=thorough kind=proved cfg=L3w8 timeout=3600 funcs=HssPrivateKey::from contract="same, L=3"
     from_harness!(c03_from_l3, 3);
     // @h name=c03_from_l8 props=C03,C07,C01,C05,C13,C10 tier=thorough kind=proved cfg=w8 timeout=7200 funcs=HssPrivateKey::from contract="same, L=8"
     from_harness!(c03_from_l8, 8);
